@@ -36,9 +36,15 @@ PROPERTIES = {
                 "definitions of the prefix. Locality on the implementation: generated files (all kinds, all layouts) x definition "
                 "index x corruption operators (error not before the corrupted definition, Defs() = the preceding definitions), "
                 "also compared with the model; arbitrary bytes: outcome kind, position and Defs() of two runs under "
-                "recover()+timeout compared with the model.",
+                "recover()+timeout compared with the model; every byte value and multi-byte sequences inside every string literal and "
+                "identifier (byte sweep). C12_validate_bytewise: Identifier.Validate transcribed rune by rune (the loop with "
+                "IsAlphaChar/IsNumChar as comparison chains) equals the byte-wise check of the parser model for every byte list.",
         "note": _NOTE + " What the model cannot show (other runtime panics, real termination time) is covered only by running the "
-                        "implementation under recover() and a 2 s timeout. KNOWN FINDING " + "C12-lookahead-scanner-error-drops-previous-definition"
+                        "implementation under recover() and a 2 s timeout (a hang is reported only if the run is still unfinished 10 s later, "
+                        "so that a stalled machine raises no false alarm). Determinism: the model is a function, so C12_deterministic "
+                        "is trivial for it; run-to-run variation of the Go code (map iteration order, state kept between parsers) is "
+                        "outside the functional model and is observed by parsing every text five times with fresh parsers and "
+                        "comparing all outcomes. KNOWN FINDING " + "C12-lookahead-scanner-error-drops-previous-definition"
                         ": a NUL / invalid UTF-8 byte as the very first byte after a BS_, NS_, BO_ or SG_ definition (or directly after "
                         "the line end of a BU_ / unknown line) is reported by the scanner while that definition is still reading, so it "
                         "is missing from Defs(); exactly these cases are excluded, every other locality failure is a violation.",
@@ -50,7 +56,12 @@ PROPERTIES = {
 RULES = {
     "C04": "seeded grammar generator in the Go harness: files of 0..40 definitions over the 16 dispatching kinds + unknown lines "
            "(1..8 tokens), BA_DEF_DEF_/BA_ typed by the first earlier BA_DEF_, identifiers up to 128 chars, uints up to 2^64-1, ints up "
-           "to 2^53, decimal/exponent floats, strings with \\\" / backslash / UTF-8 / embedded LF and CRLF, layouts (LF/CRLF/mixed, blank "
+           "to 2^53, decimal/exponent floats, strings with \\\" / backslash / multi-byte UTF-8 (2-4 byte encodings, incl. runes whose low byte is NUL / LF / quote / backslash; "
+           "counted per definition kind as c04-utf8-in-string-<kind>) / embedded LF and CRLF; ENUM lists of 1..10 values in no "
+           "particular order with duplicates, BA_DEF_DEF_ / BA_ enum values by index, by the name of a declared value (every "
+           "position of the list after one ENUM definition in three: c04-enum-probe-by-name) and by an arbitrary string; "
+           "near-colliding identifiers and attribute names (capitalization, one character replaced / added / dropped), references "
+           "to attribute names that match no BA_DEF_ exactly; every text parsed five times (all outcomes equal); layouts (LF/CRLF/mixed, blank "
            "lines, indentation, extra spaces, empty gaps next to punctuation, line ends inside definitions); one case per file "
            "(c04-file, non-trivial = at least one definition, distinct by text hash) plus one count per expected definition "
            "(c04-def-<kind>) plus the strconv oracle stream (num)",
@@ -63,17 +74,33 @@ RULES = {
            "locality-corrupted-definition-reported)}; (b) c12b-<generator>-<outcome>: grammar outputs with 1-3 byte "
            "edits, inserted invalid UTF-8/NUL/BOM, huge and malformed numbers, deep repetition (200..1700 fragments), random bytes, "
            "random DBC-alphabet text, token soup, integer-conversion probes; (c) c12b-tokmut-<kind>-<outcome>: grammar-aware token "
-           "mutations (harness/parser/tokmut.go): 43 fixed well-formed instances covering every definition kind and form (BA_DEF_DEF_ / BA_ "
-           "after the five BA_DEF_ types), each single token in turn replaced by each of 110 boundary tokens (m M m0 mM m1M m-1 "
+           "mutations (harness/parser/tokmut.go): 49 fixed well-formed instances covering every definition kind and form (BA_DEF_DEF_ / BA_ "
+           "after the five BA_DEF_ types, and after four BA_DEF_ whose names nearly collide - Ab aB ab Abc with different types - "
+           "referenced by a name that matches none exactly), each single token in turn replaced by each of 110 boundary tokens (m M m0 mM m1M m-1 "
            "m9..9, single letters, - + . e 0x 1e 1e+ 00 -0, \"\" and unterminated strings, identifiers of 128/129 chars, every "
            "punctuation character, 2047/2048, 2^31, 2^32, 2^53, 2^63, 2^64 and neighbours, 1e400, enumeration names, NUL/0xFF/"
            "truncated UTF-8/BOM, every DBC keyword), deleted, duplicated; at every string position in addition 25 string literals with "
            "runs of 1..3 backslashes before a plain character / an escaped quote / a line end / a space / the closing quote, "
-           "embedded LF and CRLF, NUL and invalid UTF-8 inside (always emitted); variants: alone / followed by another definition / input "
+           "embedded LF and CRLF, NUL and invalid UTF-8 inside (always emitted) and the four unterminated literals \" \"a \"\\ \"\\\" "
+           "(always emitted, both followed by the rest of the definition and as the last bytes of the input); variants: alone / followed by another definition / input "
            "ends right after the changed token; quick = every triple at the SG_ multiplexer position (alone and at the end of the "
            "input), the attribute value / range positions, enum indices and message ids plus one in 8 of the others chosen by the "
-           "seed, thorough = every triple in all three variants (~113000); non-trivial = error or at least one definition; "
-           "distinct by text hash",
+           "seed, thorough = every triple in all three variants (~126000); non-trivial = error or at least one definition; "
+           "distinct by text hash; (d) c12b-bytesweep-<kind>-<outcome>: byte sweep over the same 49 instances (tokmut.go "
+           "emitByteSweep): at each of the 168 positions that hold a string literal or an identifier (keywords included) one item "
+           "inserted at the start, in the middle (\"a<b>z\" / A<b>Z) and at the end of the token; items = each of the 256 byte "
+           "values, 46 runes >= 0x80 (letters, digits, marks, symbols, separators, format/private-use characters, non-characters "
+           "from Latin-1, Greek, Cyrillic, Hebrew, Arabic, Devanagari, Thai, CJK, Hangul, fullwidth, mathematical, emoji and tag "
+           "blocks at the 2/3/4-byte encoding boundaries; the class the harness computes with unicode.IsLetter/IsDigit is "
+           "compared with the UNI tables given to the model) and 17 ill-formed sequences (overlong, surrogate, > U+10FFFF, "
+           "truncated, lone continuation bytes); quick = every (item, place) at the 25 quoted attribute names (BA_DEF_: "
+           "Parser.stringIdentifier -> Identifier.Validate on arbitrary string content; BA_DEF_DEF_ / BA_) and at one other string "
+           "position and one identifier position per definition kind, one in 8 of the rest chosen by the seed (~64000 cases); "
+           "thorough = every (position, item, place), the mandatory positions in all three variants (~260000). Every text of "
+           "(a)-(d) is parsed five times by fresh parsers and all five outcomes (kind, position, Defs()) must be equal "
+           "(determinism clause); generated files carry near-colliding identifiers (other capitalization, one character "
+           "replaced / added / dropped at either end) among all names, BA_DEF_ names that nearly collide with earlier ones and "
+           "BA_DEF_DEF_ / BA_ references that match no BA_DEF_ exactly (counted as c12a-file-attr-*-near-collision)",
 }
 
 ASSUME = [
@@ -132,7 +159,8 @@ def harness_args(pid, tier, seed):
         return ["c04", seed] + ([6000, 40] if tier == "quick" else [60000, 40])
     # files, max definitions, random cases, token-mutation stride (0 = every triple in every variant)
     # (thorough with 3000 files / 400000 random cases took 2890 s of the 3000 s pipeline timeout: 2000 / 300000 leaves a margin)
-    return ["c12", seed] + ([170, 25, 10000, 8] if tier == "quick" else [2000, 30, 300000, 0])
+    # quick: 8000 random cases (10000 before the byte sweep was added: its ~57000 small cases cost ~5 s)
+    return ["c12", seed] + ([170, 25, 8000, 8] if tier == "quick" else [2000, 30, 300000, 0])
 
 
 def run(res, replay=None):
